@@ -467,3 +467,20 @@ case("c10-twin-iso-temp", "C10", SWU, "    z_G2 = mapped_values[1] * mapped_valu
 CASES.append({"id": "all-twin-reformatted-tree", "props": [f"C{i:02d}" for i in range(1, 21)], "edits": [], "expect": "silent",
               "rule": None, "transform": "unparse"})
 case("c10-g1-exceptional-guard-on-t", "C10", SWU, "    if denominator == FQ.zero():\n        denominator = ISO_11_Z * ISO_11_A", "    if t == FQ.zero():\n        denominator = ISO_11_Z * ISO_11_A", rule="C10.R2")
+
+HASHF = "py_ecc/bls/hash.py"
+case("c15-twin-xor-int-form", ["C15", "C10"], HASHF, "    return bytes(_a ^ _b for _a, _b in zip(a, b))",
+     "    return i2osp(os2ip(a) ^ os2ip(b), len(a))", expect="silent")
+case("c15-xor-drops-leading-zeros", "C15", HASHF, "    return bytes(_a ^ _b for _a, _b in zip(a, b))",
+     "    x = os2ip(a) ^ os2ip(b)\n    return i2osp(x, (x.bit_length() + 7) // 8)", rule="C15.R1")
+
+SECPF = "py_ecc/secp256k1/secp256k1.py"
+_REC = ("    if (n % 2) == 0:\n        return jacobian_double(jacobian_multiply(a, n // 2))\n    if (n % 2) == 1:\n"
+        "        return jacobian_add(jacobian_double(jacobian_multiply(a, n // 2)), a)\n"
+        "    raise ValueError(\"Unexpected case in jacobian_multiply: This should never happen.\")")
+_ITER = ("    result = a\n    for i in range(n.bit_length() - 2, -1, -1):\n        result = jacobian_double(result)\n"
+         "        if (n >> i) & 1:\n            result = jacobian_add(result, a)\n    return result")
+case("c18-twin-iterative-ladder", ["C18", "C06"], SECPF, _REC, _ITER, expect="silent")
+case("c18-iterative-ladder-negative-unguarded", ["C18"], SECPF, _REC, _ITER, rule="C18.R2",
+     more=[(SECPF, "    if n < 0 or n >= N:", "    if n >= N:", 1)])
+case("c18-iterative-ladder-wrong-start", ["C18"], SECPF, _REC, _ITER.replace("n.bit_length() - 2", "n.bit_length() - 1"), rule="C18.R2")
